@@ -32,7 +32,7 @@ PROPS = {
 }
 
 STATE_CAP = 2_000_000
-RUN_CPU_LIMIT_S = 60
+RUN_CPU_LIMIT_S = 120  # CPU seconds per seeded run; the heaviest runs measured use 3-12 s
 CHUNK_TIMEOUT_S = 600
 
 
@@ -55,6 +55,7 @@ def one_run(mod, master, i, want_sample=False):
         return orig(case, *a, **kw)
 
     mod.execute = tracking_execute
+    t_cpu = time.process_time()
     try:
         with Watchdog(RUN_CPU_LIMIT_S):
             mod.explore(rng, st)
@@ -69,6 +70,7 @@ def one_run(mod, master, i, want_sample=False):
         )
     finally:
         mod.execute = orig
+    st.info["cpu_s"] = time.process_time() - t_cpu
     return st, vio
 
 
@@ -87,8 +89,10 @@ def _chunk(args):
         nontrivial = []
         samples = []
         violations = []
+        max_cpu = 0.0
         for i in range(lo, hi):
             st, vio = one_run(mod, master, i)
+            max_cpu = max(max_cpu, st.info.get("cpu_s", 0.0))
             faults.update(st.faults)
             probes.update(st.probes)
             events += st.events
@@ -138,6 +142,7 @@ def _chunk(args):
             "nontrivial": bytes(nontrivial),
             "samples": samples,
             "violations": violations,
+            "max_cpu": max_cpu,
         }
     except BaseException:
         return {"lo": lo, "hi": hi, "error": traceback.format_exc()}
@@ -189,6 +194,7 @@ def write_replay(prop, master, vio, digest_hex=None, tier="quick", rerun=False):
                 "case": vio["case"],
                 "tier": tier,
                 "hashseed": os.environ.get("PYTHONHASHSEED"),
+                "optimize": sys.flags.optimize,
                 # set when the minimised case alone does not reproduce in a fresh interpreter
                 # (the violation depends on what earlier runs left behind in process-wide
                 # state of the library): replay then re-executes the worker's runs lo..run
@@ -201,7 +207,45 @@ def write_replay(prop, master, vio, digest_hex=None, tier="quick", rerun=False):
     return path
 
 
-def run_property(prop, tier, master, runs=None, workers=None, out=sys.stdout):
+OPT_FIRST = 10_000_000  # run indices of the optimized slice (seeds disjoint from the main batch)
+
+
+def optimized_slice(prop, tier, master, runs, workers):
+    """Run nruns/8 further seeded runs in a child interpreter started with -O.  Its
+    VIOLATION lines are forwarded; its evidence goes to a scratch directory."""
+    import shutil
+    import subprocess
+    import tempfile
+
+    mod = load(prop)
+    nruns = runs if runs is not None else mod.RUNS[tier]
+    n = max(40, nruns // 8)
+    tmp = tempfile.mkdtemp(prefix="verif-opt-", dir="/tmp")
+    envc = dict(os.environ, VERIF_EVIDENCE_DIR=tmp, VERIF_SEED=str(master))
+    cmd = [sys.executable, "-O", "-X", "faulthandler", "-m", "sim.main", prop, "--tier", tier, "--runs", str(n), "--first", str(OPT_FIRST), "--opt-slice"]
+    if workers:
+        cmd += ["--workers", str(workers)]
+    try:
+        p = subprocess.run(cmd, capture_output=True, text=True, env=envc, cwd=env.VERIF_DIR, timeout=6 * 3600)
+        info = {"runs": n, "first_run_index": OPT_FIRST, "rc": p.returncode}
+        try:
+            with open(os.path.join(tmp, f"{prop}.json")) as f:
+                ev = json.load(f)
+            info["evaluations"] = ev["coverage"]["evaluations"]
+            info["wall_s"] = ev["wall_s"]
+        except Exception:
+            pass
+        for ln in p.stdout.splitlines():
+            if ln.startswith(("VIOLATION", "KNOWN-FINDING", "  oracle", "HARNESS-ERROR")):
+                print(ln + ("  [python -O slice]" if ln.startswith("  oracle") else ""))
+        if p.returncode not in (0, 1):
+            print(f"HARNESS-ERROR: property={prop} optimized slice failed (rc={p.returncode})\n{p.stdout[-1500:]}\n{p.stderr[-1500:]}")
+        return info
+    finally:
+        shutil.rmtree(tmp, ignore_errors=True)
+
+
+def run_property(prop, tier, master, runs=None, workers=None, out=sys.stdout, first=0, extra=None):
     mod = load(prop)
     t0 = time.time()
     core.TIER = tier
@@ -209,7 +253,7 @@ def run_property(prop, tier, master, runs=None, workers=None, out=sys.stdout):
     workers = workers or min(16, os.cpu_count() or 1)
     per = max(1, min(250, nruns // (workers * 6) or 1))
     chunks = [
-        (prop, master, lo, min(nruns, lo + per), 1, tier) for lo in range(0, nruns, per)
+        (prop, master, first + lo, first + min(nruns, lo + per), 1, tier) for lo in range(0, nruns, per)
     ]
     results = []
     if workers == 1:
@@ -240,6 +284,7 @@ def run_property(prop, tier, master, runs=None, workers=None, out=sys.stdout):
     n_nontrivial = 0
     samples = []
     violations = []
+    max_cpu = max((r.get("max_cpu", 0.0) for r in results), default=0.0)
     for r in results:
         faults.update(r["faults"])
         probes.update(r["probes"])
@@ -254,7 +299,7 @@ def run_property(prop, tier, master, runs=None, workers=None, out=sys.stdout):
         nt = r["nontrivial"]
         for k, i in enumerate(range(r["lo"], r["hi"])):
             dg = db[8 * k : 8 * k + 8]
-            if i < 64:
+            if i - first < 64:
                 digests[i] = dg
             if nt[k]:
                 n_nontrivial += 1
@@ -305,7 +350,7 @@ def run_property(prop, tier, master, runs=None, workers=None, out=sys.stdout):
             rc = 1
 
     wall = time.time() - t0
-    reach_warnings = sorted(
+    reach_warnings = (["a run used more than a quarter of the CPU limit"] if max_cpu > RUN_CPU_LIMIT_S / 4 else []) + sorted(
         p for p in getattr(mod, "PROBES", []) if probes.get(p, 0) == 0
     ) + sorted(
         "fault:" + f for f in getattr(mod, "FAULTS", []) if faults.get(f, 0) == 0
@@ -323,7 +368,9 @@ def run_property(prop, tier, master, runs=None, workers=None, out=sys.stdout):
             "rule": mod.RULE,
             "samples": samples or [{"note": "no sample recorded"}],
             "seeded_runs": nruns,
-            "seeds": f"random.Random('{master}:{prop}:<i>') for i in 0..{nruns - 1}",
+            "seeds": f"random.Random('{master}:{prop}:<i>') for i in {first}..{first + nruns - 1}",
+            "python_optimize_flag": sys.flags.optimize,
+            "optimized_slice": (extra or {}).get("optimized_slice"),
             "nontrivial_runs": n_nontrivial,
             "runs_per_hour": int(nruns / wall * 3600) if wall > 0 else None,
             "executions_per_hour": int(execs / wall * 3600) if wall > 0 else None,
@@ -342,6 +389,8 @@ def run_property(prop, tier, master, runs=None, workers=None, out=sys.stdout):
                 "digest_mismatches": 0,
             },
             "workers": workers,
+            "max_cpu_seconds_of_one_run": round(max_cpu, 3),
+            "run_cpu_limit_s": RUN_CPU_LIMIT_S,
             "reported": reported,
             "exhaustive": False,
         },
